@@ -1486,7 +1486,7 @@ class _HttpProxy:
                 header = _read_stream_header(resp_stream, info.header_type, ipc_validation, on_log, ext_cfg)
 
             reader = _open_response_stream(resp_stream.read(), resp.status_code, ipc_validation)
-            return _init_http_stream_session(
+            session = _init_http_stream_session(
                 client=client,
                 url_prefix=url_prefix,
                 method_name=info.name,
@@ -1498,6 +1498,13 @@ class _HttpProxy:
                 retry_config=retry_cfg,
                 compression_level=compression_level,
             )
+            # Exchanges and continuations pick their request codec from the
+            # session's own capability snapshot.  Hand over what this proxy has
+            # learned (e.g. from a 415 on the init request); otherwise the
+            # session falls back to zstd and a server that only speaks gzip
+            # refuses every turn after /init.
+            session._capabilities = self._capabilities
+            return session
 
         return caller
 
